@@ -117,7 +117,11 @@ func (br *botRunner) UpdateTableState(table *pokertable.Table) error {
 			return nil
 		}
 
-		br.lastGameStateTime = gs.UpdatedAt
+		// a hand state that arrives on a snapshot which is still "opened" (a table-level event right after the
+		// open) is not acted on below: it must not count as seen, the playing snapshot carries the same state
+		if table.State.Status != pokertable.TableStateStatus_TableGameOpened {
+			br.lastGameStateTime = gs.UpdatedAt
+		}
 	}
 
 	// game move is allowed when the game is playing
